@@ -1,6 +1,7 @@
 package main
 
 import (
+	"strings"
 	"bytes"
 	"fmt"
 	"io"
@@ -434,6 +435,88 @@ func famCompare(dir string, seed int64, tier string) {
 			repCb.violate("C07", "comparebytes-panic", fmt.Sprintf("CompareBytes panicked: %v", e), desc)
 		}
 		wCb.add(fmt.Sprintf("CbCase %s %s %s", coqRLE(a), coqRLE(b), signStr(s, e)), desc, len(a) > 0 && len(b) > 0)
+	}
+
+	// ---- the same token sequence delivered by different producers compares equal, and orders like the
+	//      token lists: Compare reuses two tokens for the whole walk, producers differ in how they fill them
+	//      (whole-token assignment, kind only for value-less tokens) ----
+	{
+		type producer struct {
+			name string
+			mk   func() sb.Stream
+		}
+		var prods []producer
+		// marshalled values: sb.Tuple (its TupleEnd is written by kind only), funcs, structs, maps
+		vals := []any{
+			sb.Tuple{1, "a", int8(3)}, sb.Tuple{}, sb.Tuple{sb.Tuple{uint16(9)}, 2.5},
+			func() (int, string, int8) { return 1, "a", 3 },
+			struct {
+				A int
+				B []string
+				C map[string]bool
+			}{7, []string{"x", ""}, map[string]bool{"k": true}},
+			[]any{nil, 1, []any{}, map[string]any{"a": nil}},
+		}
+		for i := range vals {
+			v := vals[i]
+			prods = append(prods, producer{fmt.Sprintf("Marshal(%T)", v), func() sb.Stream { return sb.Marshal(v) }})
+		}
+		for _, doc := range []string{`[1,{"a":null,"b":[true,"s"]},[],{}]`, `{"k":[[],[null]],"z":"y"}`, `"s"`} {
+			d := doc
+			prods = append(prods, producer{"DecodeJson " + d, func() sb.Stream { return sb.DecodeJson(strings.NewReader(d), nil) }})
+		}
+		for i := 0; i < 12; i++ {
+			ts := randTokens(r, 5)
+			ts = append(ts, sb.Token{Kind: sb.KindString, Value: string(payload(r, 1+r.Intn(30)))}, sb.Token{Kind: sb.KindInt, Value: i}, sb.Token{Kind: sb.KindBytes, Value: payload(r, r.Intn(20))}, sb.Token{Kind: sb.KindNil})
+			enc := runEncode(ts, 0, 0).bytes
+			prods = append(prods,
+				producer{"Decode " + truncate(descTokens(ts), 200), func() sb.Stream { return sb.Decode(bytes.NewReader(enc)) }},
+				producer{"DecodeForCompare " + truncate(descTokens(ts), 200), func() sb.Stream { return sb.DecodeForCompare(bytes.NewReader(enc)) }})
+		}
+		cmp := func(a, b sb.Stream) (res int, err error) {
+			err = guard(func() error {
+				var e error
+				res, e = sb.Compare(a, b)
+				return e
+			})
+			return
+		}
+		bts := boundaryTokens(r, []int{0, 1, 8, 9})
+		for _, p := range prods {
+			ts, e := collect(p.mk())
+			if e != nil || hasNaNPayload(ts) {
+				continue // float tokens carrying a NaN are outside Compare's domain (C06 domain edge)
+			}
+			rep.count("cross-producer")
+			for _, order := range []int{0, 1} {
+				var s int
+				var err error
+				if order == 0 {
+					s, err = cmp(p.mk(), tokensFrom(ts))
+				} else {
+					s, err = cmp(tokensFrom(ts), p.mk())
+				}
+				rep.Evaluations++
+				if err != nil || s != 0 {
+					rep.violate("C06", "zero-for-identical-streams", fmt.Sprintf("Compare of one token sequence delivered by two producers = %s (producer on side %d)", signStr(s, err), order), "producer="+p.name)
+				}
+			}
+			// against a list that differs in one place: the sign of the documented order
+			for k := 0; k < 3 && len(ts) > 0; k++ {
+				other := append([]sb.Token{}, ts...)
+				pos := r.Intn(len(other))
+				other[pos] = bts[r.Intn(len(bts))]
+				if hasNaNPayload(other) || hasNaNPayload(ts) {
+					continue
+				}
+				want := refLex(ts, other)
+				s, err := cmp(p.mk(), tokensFrom(other))
+				rep.Evaluations++
+				if classOf(err) == "EPanic" || (err == nil && sgn(s) != want) {
+					rep.violate("C06", "not-the-documented-order", fmt.Sprintf("Compare(producer, list) = %s, documented lexicographic order gives %d", signStr(s, err), want), fmt.Sprintf("producer=%s other=[%s]", p.name, truncate(descTokens(other), 200)))
+				}
+			}
+		}
 	}
 
 	w.flush()
